@@ -37,7 +37,7 @@ ASSUMES = ["integer cycling; jobs simulated by the harness; no xtriggers / exter
 
 KNOWN_QUEUED = "held-queued-task-unqueued"
 
-KEEP = {"reload_def", "reload_before", "reload_after", "reload_check", "reload_qir", "reload_cmd_end", "reload_cmd_error", "op",
+KEEP = {"op_remove_partial", "reload_def", "reload_before", "reload_after", "reload_check", "reload_qir", "reload_cmd_end", "reload_cmd_error", "op",
         "op_rejected", "output", "submit", "shutdown", "tick_end", "tick"}
 
 
@@ -482,7 +482,9 @@ class ReloadStream(SchedStream):
                       f"dependency lines and/or 1-2 task definitions removed; 60% of the changed definitions are targeted "
                       f"when the command is issued: new dependencies of tasks waiting in the pool on outputs already / not "
                       f"yet recorded in task_outputs, removal of the definition of a pooled task preferring held+started, "
-                      f"held, queued, active instances), with probability 0.5 a hold point set before and released after the reload; a second reload "
+                      f"held, queued, active instances), with probability 0.5 a hold point set before and released after the reload; with probability 0.35 the real "
+                      f"remove command on partly satisfied waiting tasks some iterations before the reload (respawned tasks "
+                      f"whose unsatisfied prerequisites are recorded in task_outputs); a second reload "
                       f"(possibly of another kind, e.g. back to the original) with probability {p_second}; a quarter of the base scenarios "
                       f"without hold/release commands (those with unchanged-definition reloads are also run without the "
                       f"reload and must end the same way); non-trivial = a reload that ran on a non-empty pool")
@@ -508,7 +510,21 @@ class ReloadStream(SchedStream):
         c2["ops"] = [{"tick": 1, "cmd": "hold", "args": {"tasks": ["1/c"]}},
                      {"tick": 5, "cmd": "release", "args": {"tasks": ["1/c"]}}]
         add_reload(c2, 2, "same", c2)
-        return [c1, c2]
+        # (iii) a & b => z; 1/b held; 1/a succeeds and spawns 1/z; `cylc remove 1/z`; 1/b released, succeeds and
+        #       respawns 1/z with a:succeeded NOT satisfied although it is recorded in task_outputs; reload of the
+        #       unchanged definition: the prerequisite must stay unsatisfied (it must not be re-evaluated from the DB)
+        c3 = _clone(base)
+        c3.update({"fcp": 1, "tasks": ["a", "b", "z"], "opt": [[t, "succeeded", False] for t in "abz"], "max_ticks": 24})
+        c3["sections"][0]["lines"] += [
+            {"lhs": None, "rhs": "z"},
+            {"lhs": {"op": "and", "args": [{"task": "a", "off": 0, "out": "succeeded"},
+                                           {"task": "b", "off": 0, "out": "succeeded"}]}, "rhs": "z"}]
+        c3["ops"] = [{"tick": 0, "cmd": "hold", "args": {"tasks": ["1/b"]}},
+                     {"tick": 9, "cmd": "remove_tasks", "args": {"tasks": ["1/z"], "flow": ["all"]}},
+                     {"tick": 10, "cmd": "release", "args": {"tasks": ["1/b"]}}]
+        add_reload(c3, 18, "same", c3)
+        # (each witness is run by one stream only)
+        return {"reload-cmds": [c1, c2], "reload-respawn": [c3]}.get(self.name, [])
 
     def _cases(self, r, n):
         mut = {"same": lambda x, _r: x, "ext": extend, "shrink": shrink_def}
@@ -522,6 +538,13 @@ class ReloadStream(SchedStream):
                 base["ops"] = []      # no hold / release commands: the outcome of the run does not depend on timing
             for k in r.sample(range(0, 9), 3):
                 s = _clone(base)
+                if not plain and r.random() < 0.35:
+                    # `cylc remove` of partly satisfied waiting tasks before the reload: respawned later, their
+                    # prerequisites on outputs recorded earlier are unsatisfied (live state and DB disagree)
+                    t1 = r.randint(1, 5)
+                    for dt in range(r.randint(1, 3)):
+                        s["ops"].append({"tick": t1 + dt, "cmd": "x_remove_partial", "args": {"pick": r.randrange(8)}})
+                    k = t1 + r.randint(3, 9)
                 kind = r.choice(self.kinds)
                 # half of the changed definitions are decided when the command is issued (targeted at the pool)
                 adapt = r.randrange(1 << 30) if kind != "same" and r.random() < 0.6 else None
@@ -629,6 +652,55 @@ class ReloadStream(SchedStream):
                 yield c2
 
 
+class RespawnStream(ReloadStream):
+    """Join graphs (several parents => z) in which a fast parent completes, the partly satisfied child is removed with
+    the real `cylc remove`, and a slow (held, then released) parent respawns it: the respawned task has prerequisites
+    that are NOT satisfied although their outputs are recorded in task_outputs.  Then the reload."""
+
+    def __init__(self, name, n_quick, n_thorough):
+        super().__init__(name, {"join": True}, n_quick, n_thorough)
+        self.rule = ("join graphs: 2-3 parents and a child z over 1-3 cycles, prerequisites as one AND expression or one "
+                     "line per parent, optional [-P1] offset and a downstream task; one parent held from the start; once the "
+                     "others have finished the real remove command is issued on partly satisfied waiting tasks, the held "
+                     "parent is released and respawns them with the earlier outputs recorded in task_outputs but not "
+                     "satisfied; then the real reload (unchanged / extended / shrunk definition); non-trivial = a reload "
+                     "that ran on a non-empty pool")
+
+    def _cases(self, r, n):
+        mut = {"same": lambda x, _r: x, "ext": extend, "shrink": shrink_def}
+        out = []
+        while len(out) < n:
+            npar = r.choice([2, 2, 3])
+            parents = [chr(ord("a") + i) for i in range(npar)]
+            tasks = parents + ["z"] + (["y"] if r.random() < 0.4 else [])
+            fcp = r.choice([1, 1, 2, 3])
+            lines = [{"lhs": None, "rhs": t} for t in tasks]
+            ats = [{"task": p_, "off": (-1 if fcp > 1 and r.random() < 0.2 else 0), "out": "succeeded"} for p_ in parents]
+            if r.random() < 0.5:
+                lines.append({"lhs": {"op": "and", "args": ats}, "rhs": "z"})
+            else:
+                lines += [{"lhs": a, "rhs": "z"} for a in ats]
+            if "y" in tasks:
+                lines.append({"lhs": {"task": "z", "off": 0, "out": "succeeded"}, "rhs": "y"})
+            slow = r.choice(parents)
+            t1 = r.randint(6, 9)
+            k = t1 + 3 + r.randint(5, 10)
+            base = {"icp": 1, "fcp": fcp, "tasks": tasks, "sections": [{"rec": "P1", "lines": lines}], "customs": {},
+                    "opt": [[t, "succeeded", False] for t in tasks], "runahead": 4, "queues": {},
+                    "seed": r.randrange(1 << 30), "fail_rate": 0.0, "custom_rate": 1.0, "disorder": 0.0,
+                    "max_ticks": k + 8, "ops": []}
+            ids = [f"{p_}/{slow}" for p_ in range(1, fcp + 1)]
+            s = _clone(base)
+            s["ops"] = [{"tick": 0, "cmd": "hold", "args": {"tasks": ids}}]
+            for dt in range(r.randint(1, 3)):
+                s["ops"].append({"tick": t1 + dt, "cmd": "x_remove_partial", "args": {"pick": r.randrange(8)}})
+            s["ops"].append({"tick": t1 + 3, "cmd": "release", "args": {"tasks": ids}})
+            kind = r.choice(["same", "same", "ext", "shrink"])
+            add_reload(s, k, kind, mut[kind](_clone(base), r))
+            out.append(s)
+        return out
+
+
 def _slim(e):
     if e["e"] == "tick_end":
         return {"e": "tick_end", "n": e["n"], "snap": {"tasks": e["snap"]["tasks"], "paused": e["snap"]["paused"]}}
@@ -643,6 +715,7 @@ def _slim(e):
 STREAMS = [
     ReloadStream("reload-cmds", {"hold": True, "queues": True, "abs": True}, 12, 330),
     ReloadStream("reload-retries", {"hold": True, "queues": True, "retries": True}, 9, 270),
+    RespawnStream("reload-respawn", 8, 160),
 ]
 
 META = {
@@ -663,7 +736,8 @@ META = {
         "preserved' (c27_queued_refuted: TaskPool.reload clears is_queued; c27_requeue_restores: the main loop re-queues "
         "ready un-held tasks in the same iteration; c27_held_queued_lost_refuted: a held queued task stays un-queued). "
         "Tie: every real reload of the generated runs (unchanged / extended / shrunk / targeted definitions, 1-2 reloads per "
-        "run, at main-loop iterations 0..8) is recomputed by the model from (pool before, name lists + new prerequisite "
+        "run, at main-loop iterations 0..8; plus join graphs whose child is removed with the real remove command and "
+        "respawned, so that unsatisfied prerequisites are recorded in task_outputs at the reload) is recomputed by the model from (pool before, name lists + new prerequisite "
         "keys, task_outputs rows) and compared inside Coq with the real pool right after TaskPool.reload; every "
         "check_task_output call and the following queue_if_ready calls are compared too. Oracle (implementation only): "
         "the clauses on the before/after/end-of-iteration snapshots, prerequisite keys against the generator's own "
